@@ -445,3 +445,45 @@ example : let ops := [Op.update { handlerId := 1, workflowName := 5, status := 1
 
 example : ∀ op ∈ [Op.update { handlerId := 1, workflowName := 5, status := 1 }, .delete { isIdle := some false }, .query {}],
     op.isStatus = false := by decide
+
+/-! ## the in-memory store's own code -/
+
+/-- What `MemoryWorkflowStore` says today (regenerated on every run, names of parameters and locals
+abstracted): the constructor's default bound and its guard, `query` as the filtered listing of the
+dict, the statement shapes of `update` (store; if terminal: enqueue the id unless queued, evict;
+else de-queue), `delete` (collect the matching ids; per id remove the handler and de-queue; return
+their number) and `_evict_oldest_completed` (no bound: return; while the queue is longer than the
+bound: pop the oldest id, skip a missing or non-terminal handler, remove the handler and its
+per-run data). `Store.update`, `Store.delete` and `evict` of the model are these shapes. -/
+theorem C24_memory_store_shape :
+    memMaxCompletedDefault = some 1000 ∧ memNegativeMaxRaises = true ∧ memQueryIsFilteredListing = true ∧
+    memUpdateShape = ["store", "if-terminal", "enqueue-if-absent", "evict", "else", "dequeue"] ∧
+    memDeleteShape = ["collect-matching", "del-handler", "dequeue", "count"] ∧
+    memEvictShape = ["unbounded-returns", "while-len>max", "pop-oldest", "skip-missing", "skip-nonterminal", "remove-handler",
+      "drop-run-data"] ∧
+    memEvictRunTables = ["events", "state_stores", "ticks"] := by
+  refine ⟨rfl, rfl, rfl, rfl, rfl, rfl, rfl⟩
+
+/-- **the constructor**: a negative `max_completed` is refused (and only that), any other value is
+the bound of the store, `None` means no bound, and the default store is the one with the bound the
+source gives — which therefore never holds more than that many terminal handlers, whatever happens. -/
+theorem C24_constructor (v : Int) :
+    (Store.initMem? (some v) = none ↔ v < 0) ∧
+    (0 ≤ v → Store.initMem? (some v) = some (Store.init (.mem (some v.toNat)))) ∧
+    Store.initMem? none = some (Store.init (.mem none)) ∧
+    Store.initMemDefault? = some (Store.init (.mem (some 1000))) ∧
+    ∀ s ops, Store.initMemDefault? = some s → countTerminal (s.run ops).rows ≤ 1000 := by
+  have hd : Store.initMemDefault? = some (Store.init (.mem (some 1000))) := rfl
+  refine ⟨?_, ?_, rfl, hd, ?_⟩
+  · unfold Store.initMem?
+    by_cases hv : v < 0 <;> simp [hv, memNegativeMaxRaises]
+  · intro hv
+    unfold Store.initMem?
+    have : ¬ v < 0 := by omega
+    simp [this]
+  · intro s ops hs
+    rw [hd] at hs
+    cases hs
+    exact C24_retention_bound 1000 ops
+
+example : Store.initMem? (some (-1)) = none ∧ (Store.initMem? (some 2)).map (·.backend) = some (.mem (some 2)) := ⟨rfl, rfl⟩
